@@ -16,6 +16,13 @@
 (*   W_Finish    worker: play + compare, results.put                       *)
 (*   W_Exit      worker process exits while playing                        *)
 (*   W_LatePut   worker answers after the parent stopped waiting           *)
+(*   W_IdleExit  the worker process dies while idle, after it answered a   *)
+(*               recording with behaviour "idleExit" (a fault that belongs *)
+(*               to no recording).  The parent only learns of it when the  *)
+(*               next task it hands to that worker is never answered: that *)
+(*               recording is reported as "died" (a documented deviation:  *)
+(*               `orphans'), the one after it gets a fresh worker *and     *)
+(*               fresh queues* and is unaffected.                          *)
 (*   P_Get       parent: results.get -> comparison labelled with the       *)
 (*               *requested* id, verdict / attached replay from the result *)
 (*   P_Died      parent: queue empty and worker not alive                  *)
@@ -35,15 +42,15 @@ CONSTANTS N,            \* number of recordings
           Stops,        \* set of k: the consumer abandons the run after k comparisons (N = consumes all)
           FreshQueues   \* TRUE: new task/result queues with every new worker
 
-VARIABLES beh, stop, i, pc, gen, alive, age, served, wst, tasks, results, out, lateput, term
-vars == <<beh, stop, i, pc, gen, alive, age, served, wst, tasks, results, out, lateput, term>>
+VARIABLES beh, stop, i, pc, gen, alive, known, age, served, wst, tasks, results, out, lateput, orphans, term
+vars == <<beh, stop, i, pc, gen, alive, known, age, served, wst, tasks, results, out, lateput, orphans, term>>
 
 MaxGen == N + 1
 Gens == 1 .. MaxGen
-Idle == [s |-> "idle", id |-> 0]
+Idle == [s |-> "idle", id |-> 0, last |-> 0]      \* last: the recording answered last (0: none yet)
 
 Expected(b) ==
-    CASE b = "equal" -> "Equal" [] b = "different" -> "Different" [] b = "bare" -> "Equal"
+    CASE b = "equal" -> "Equal" [] b = "different" -> "Different" [] b = "bare" -> "Equal" [] b = "idleExit" -> "Equal"
       [] b \in {"playerRaises", "extractorRaises", "comparatorRaises", "dataRaises"} -> "Failure"
       \* the worker answers, but the parent cannot rebuild the answer it takes from the queue (results.get raises):
       \* a failure of that recording only; the worker is alive and idle and keeps its age
@@ -61,13 +68,15 @@ Init ==
     /\ beh \in [1 .. N -> Behs]
     /\ stop \in Stops
     /\ i = 0 /\ pc = "next" /\ gen = 0
-    /\ alive = [g \in Gens |-> FALSE] /\ age = 0
+    /\ alive = [g \in Gens |-> FALSE] /\ known = FALSE /\ age = 0
     /\ served = [g \in Gens |-> 0]
     /\ wst = [g \in Gens |-> Idle]
     /\ tasks = [g \in Gens |-> <<>>] /\ results = [g \in Gens |-> <<>>]
-    /\ out = <<>> /\ lateput = {} /\ term = FALSE
+    /\ out = <<>> /\ lateput = {} /\ orphans = {} /\ term = FALSE
 
-NeedsNew == gen = 0 \/ ~alive[gen] \/ age >= Rate
+\* the parent's view: it holds a worker handle (known) until it saw that worker die or killed it
+NeedsNew == ~known \/ age >= Rate
+WillIdleExit(g) == wst[g].s = "idle" /\ wst[g].last # 0 /\ beh[wst[g].last] = "idleExit"
 
 \* recycle or create, count the task, queue it
 P_Prepare ==
@@ -75,36 +84,43 @@ P_Prepare ==
     /\ IF NeedsNew
        THEN /\ gen' = gen + 1
             /\ alive' = [alive EXCEPT ![gen + 1] = TRUE, ![IF gen = 0 THEN gen + 1 ELSE gen] = (gen = 0)]
-            /\ age' = 1
+            /\ age' = 1 /\ known' = TRUE
             /\ wst' = [wst EXCEPT ![gen + 1] = Idle]
             /\ tasks' = [tasks EXCEPT ![IF FreshQueues THEN gen + 1 ELSE 1] = Append(@, i + 1)]
        ELSE /\ age' = age + 1
             /\ tasks' = [tasks EXCEPT ![Q] = Append(@, i + 1)]
-            /\ UNCHANGED <<gen, alive, wst>>
+            /\ UNCHANGED <<gen, alive, known, wst>>
     \* a recycled worker is joined: it must be idle (it is: the parent only proceeds after a result or a death)
     /\ (NeedsNew /\ gen > 0 /\ alive[gen]) => wst[gen].s = "idle"
     /\ i' = i + 1
     /\ pc' = "waiting"
-    /\ UNCHANGED <<beh, stop, served, results, out, lateput, term>>
+    /\ UNCHANGED <<beh, stop, served, results, out, lateput, orphans, term>>
 
 W_Take(g) ==
-    /\ alive[g] /\ wst[g].s = "idle" /\ tasks[QW(g)] # <<>> /\ ~term
-    /\ wst' = [wst EXCEPT ![g] = [s |-> "playing", id |-> Head(tasks[QW(g)])]]
+    /\ alive[g] /\ wst[g].s = "idle" /\ tasks[QW(g)] # <<>> /\ ~term /\ ~WillIdleExit(g)
+    /\ wst' = [wst EXCEPT ![g] = [s |-> "playing", id |-> Head(tasks[QW(g)]), last |-> @.last]]
     /\ tasks' = [tasks EXCEPT ![QW(g)] = Tail(@)]
     /\ served' = [served EXCEPT ![g] = @ + 1]
-    /\ UNCHANGED <<beh, stop, i, pc, gen, alive, age, results, out, lateput, term>>
+    /\ UNCHANGED <<beh, stop, i, pc, gen, alive, age, results, out, lateput, term, known, orphans>>
 
 W_Finish(g) ==
     /\ alive[g] /\ wst[g].s = "playing" /\ beh[wst[g].id] \notin {"exits", "hangs", "late"}
     /\ results' = [results EXCEPT ![QW(g)] = Append(@, ResultOf(wst[g].id))]
-    /\ wst' = [wst EXCEPT ![g] = Idle]
-    /\ UNCHANGED <<beh, stop, i, pc, gen, alive, age, served, tasks, out, lateput, term>>
+    /\ wst' = [wst EXCEPT ![g] = [Idle EXCEPT !.last = wst[g].id]]
+    /\ UNCHANGED <<beh, stop, i, pc, gen, alive, age, served, tasks, out, lateput, term, known, orphans>>
 
 W_Exit(g) ==
     /\ alive[g] /\ wst[g].s = "playing" /\ beh[wst[g].id] = "exits"
     /\ alive' = [alive EXCEPT ![g] = FALSE]
-    /\ wst' = [wst EXCEPT ![g] = [s |-> "dead", id |-> 0]]
-    /\ UNCHANGED <<beh, stop, i, pc, gen, age, served, tasks, results, out, lateput, term>>
+    /\ wst' = [wst EXCEPT ![g] = [s |-> "dead", id |-> 0, last |-> 0]]
+    /\ UNCHANGED <<beh, stop, i, pc, gen, age, served, tasks, results, out, lateput, term, known, orphans>>
+
+\* the worker process dies while idle (after answering a recording with behaviour "idleExit"): nobody notices yet
+W_IdleExit(g) ==
+    /\ alive[g] /\ WillIdleExit(g)
+    /\ alive' = [alive EXCEPT ![g] = FALSE]
+    /\ wst' = [wst EXCEPT ![g] = [s |-> "deadidle", id |-> 0, last |-> 0]]
+    /\ UNCHANGED <<beh, stop, i, pc, gen, age, served, tasks, results, out, lateput, term, known, orphans>>
 
 \* the worker answers just after the parent gave up (and before it is killed)
 W_LatePut(g) ==
@@ -112,7 +128,7 @@ W_LatePut(g) ==
     /\ results' = [results EXCEPT ![QW(g)] = Append(@, [id |-> wst[g].id, verdict |-> "Equal", attached |-> wst[g].id])]
     /\ wst' = [wst EXCEPT ![g] = Idle]
     /\ lateput' = lateput \cup {wst[g].id}      \* history: which late recordings did answer before the kill
-    /\ UNCHANGED <<beh, stop, i, pc, gen, alive, age, served, tasks, out, term>>
+    /\ UNCHANGED <<beh, stop, i, pc, gen, alive, age, served, tasks, out, term, known, orphans>>
 
 Emit(id, verdict, attached) == out' = Append(out, [id |-> id, verdict |-> verdict, attached |-> attached])
 
@@ -121,12 +137,15 @@ P_Get ==
     /\ LET r == Head(results[Q]) IN Emit(i, r.verdict, r.attached)
     /\ results' = [results EXCEPT ![Q] = Tail(@)]
     /\ pc' = "yielded"
-    /\ UNCHANGED <<beh, stop, i, gen, alive, age, served, wst, tasks, lateput, term>>
+    /\ UNCHANGED <<beh, stop, i, gen, alive, age, served, wst, tasks, lateput, term, known, orphans>>
 
 P_Died ==
     /\ pc = "waiting" /\ results[Q] = <<>> /\ ~alive[gen]
     /\ Emit(i, "FailureDied", 0)
     /\ pc' = "yielded"
+    /\ known' = FALSE
+    \* the recording whose task was handed to a worker that had died idle: failed although nothing is wrong with it
+    /\ orphans' = IF wst[gen].s = "deadidle" THEN orphans \cup {i} ELSE orphans
     /\ UNCHANGED <<beh, stop, i, gen, alive, age, served, wst, tasks, results, lateput, term>>
 
 \* the time-out only elapses when the worker cannot move (it hangs, or answers late)
@@ -134,38 +153,39 @@ Stuck(g) == alive[g] /\ ( (wst[g].s = "playing" /\ beh[wst[g].id] \in {"hangs", 
 P_GiveUp ==
     /\ pc = "waiting" /\ results[Q] = <<>> /\ Stuck(gen)
     /\ pc' = "gaveup"
-    /\ UNCHANGED <<beh, stop, i, gen, alive, age, served, wst, tasks, results, out, lateput, term>>
+    /\ UNCHANGED <<beh, stop, i, gen, alive, age, served, wst, tasks, results, out, lateput, term, known, orphans>>
 
 P_Kill ==
     /\ pc = "gaveup"
     /\ alive' = [alive EXCEPT ![gen] = FALSE]
-    /\ wst' = [wst EXCEPT ![gen] = [s |-> "dead", id |-> 0]]
+    /\ wst' = [wst EXCEPT ![gen] = [s |-> "dead", id |-> 0, last |-> 0]]
     /\ Emit(i, "FailureTimeout", 0)
     /\ pc' = "yielded"
-    /\ UNCHANGED <<beh, stop, i, gen, age, served, tasks, results, lateput, term>>
+    /\ known' = FALSE
+    /\ UNCHANGED <<beh, stop, i, gen, age, served, tasks, results, lateput, term, orphans>>
 
 P_Consume ==
     /\ pc = "yielded"
     /\ pc' = IF i < N /\ Len(out) < stop THEN "next" ELSE "finally"
-    /\ UNCHANGED <<beh, stop, i, gen, alive, age, served, wst, tasks, results, out, lateput, term>>
+    /\ UNCHANGED <<beh, stop, i, gen, alive, age, served, wst, tasks, results, out, lateput, term, known, orphans>>
 
 P_Finally ==
     /\ pc \in {"finally"} \/ (pc = "next" /\ (i = N \/ Len(out) >= stop))
     /\ term' = TRUE
     /\ pc' = "done"
-    /\ UNCHANGED <<beh, stop, i, gen, alive, age, served, wst, tasks, results, out, lateput>>
+    /\ UNCHANGED <<beh, stop, i, gen, alive, age, served, wst, tasks, results, out, lateput, known, orphans>>
 
 \* an idle worker that sees the terminate event exits
 W_Terminate(g) ==
     /\ term /\ alive[g] /\ wst[g].s = "idle"
     /\ alive' = [alive EXCEPT ![g] = FALSE]
-    /\ UNCHANGED <<beh, stop, i, pc, gen, age, served, wst, tasks, results, out, lateput, term>>
+    /\ UNCHANGED <<beh, stop, i, pc, gen, age, served, wst, tasks, results, out, lateput, term, known, orphans>>
 
 Next ==
     \/ P_Prepare \/ P_Get \/ P_Died \/ P_GiveUp \/ P_Kill \/ P_Consume \/ P_Finally
-    \/ \E g \in Gens : W_Take(g) \/ W_Finish(g) \/ W_Exit(g) \/ W_LatePut(g) \/ W_Terminate(g)
+    \/ \E g \in Gens : W_Take(g) \/ W_Finish(g) \/ W_Exit(g) \/ W_IdleExit(g) \/ W_LatePut(g) \/ W_Terminate(g)
 
-Fairness == WF_vars(Next) /\ \A g \in Gens : WF_vars(W_Take(g) \/ W_Finish(g) \/ W_Exit(g) \/ W_Terminate(g))
+Fairness == WF_vars(Next) /\ \A g \in Gens : WF_vars(W_Take(g) \/ W_Finish(g) \/ W_Exit(g) \/ W_IdleExit(g) \/ W_Terminate(g))
 Spec == Init /\ [][Next]_vars /\ Fairness
 
 -----------------------------------------------------------------------------
@@ -173,7 +193,7 @@ Spec == Init /\ [][Next]_vars /\ Fairness
 Attribution ==
     \A k \in 1 .. Len(out) :
         /\ out[k].id = k
-        /\ out[k].verdict = Expected(beh[k])
+        /\ out[k].verdict = IF k \in orphans THEN "FailureDied" ELSE Expected(beh[k])
         /\ out[k].attached # 0 => out[k].attached = k
 OneEach == Len(out) <= N /\ (pc = "done" => Len(out) = IF stop < N THEN stop ELSE N)
 \* C13
